@@ -8,6 +8,7 @@ ALLOCS = {
     'pmr': 'std::pmr::polymorphic_allocator<std::byte>',
     'stateful': 'c20::MiniAlloc<std::byte, false>',
     'propagating': 'c20::MiniAlloc<std::byte, true>',
+    'final': 'c20::FinalAlloc<std::byte>',
 }
 
 PRELUDE = r'''
@@ -35,6 +36,17 @@ struct MiniAlloc {
   void deallocate(T* p, std::size_t n) { std::allocator<T>{}.deallocate(p, n); }
   template <class U> friend bool operator==(const MiniAlloc& a, const MiniAlloc<U, Propagate>& b) { return a.id == b.id; }
   template <class U> friend bool operator!=(const MiniAlloc& a, const MiniAlloc<U, Propagate>& b) { return a.id != b.id; }
+};
+// empty and declared final (the Allocator requirements allow that, cf. LWG 2112): it cannot serve as a base class
+template <class T>
+struct FinalAlloc final {
+  using value_type = T;
+  FinalAlloc() = default;
+  template <class U> FinalAlloc(const FinalAlloc<U>&) {}
+  T* allocate(std::size_t n) { return std::allocator<T>{}.allocate(n); }
+  void deallocate(T* p, std::size_t n) { std::allocator<T>{}.deallocate(p, n); }
+  template <class U> friend bool operator==(const FinalAlloc&, const FinalAlloc<U>&) { return true; }
+  template <class U> friend bool operator!=(const FinalAlloc&, const FinalAlloc<U>&) { return false; }
 };
 template <class T> T make(int k) { return vf::Val<T>::make(k); }
 template <class T> std::vector<T> make_vec(std::size_t n) { std::vector<T> v; for (std::size_t i = 0; i < n; ++i) v.push_back(vf::Val<T>::make(static_cast<int>(i))); return v; }
